@@ -534,3 +534,47 @@ def rule_no_stash(fx, col):
         if col.anchor('NO-STASH', 'struct ' + k, a is not None):
             bad = [x['name'] for x in a['variants'][0]['fields'] if '*' in x['ty'] and 'Node' not in x['ty']]
             col.add('NO-STASH', '%s|no pointer field' % k.split('::')[-1], not bad, 'raw-pointer fields: %s' % bad)
+
+
+def rule_swap_shape(fx, col):
+    """C04: swap hands back exactly what the RMW took out; into_inner / Drop release exactly the stored value"""
+    cx = O.ctx(fx)
+    b = _body(fx, 'arc_swap::ArcSwapAny::swap')
+    if col.anchor('SWAP-SHAPE', 'ArcSwapAny::swap', b is not None):
+        rmw = [s for s in cx.summ.sites_by_body.get(b.key, ()) if s.cls == 'cell' and s.op == 'swap']
+        ip = [(bb, t) for bb, t in b.calls(include_cleanup=False) if U.callee_name(t) == 'into_ptr']
+        fp = [(bb, t) for bb, t in b.calls(include_cleanup=False) if U.callee_name(t) == 'from_ptr']
+        ok = len(rmw) == 1 and len(ip) == 1 and len(fp) == 1
+        col.add('SWAP-SHAPE', 'swap|one RMW', ok, 'into_ptr x%d, cell.swap x%d, from_ptr x%d' % (len(ip), len(rmw), len(fp)))
+        if ok:
+            col.add('SWAP-SHAPE', 'swap|installs the new value', _call_bbs(b, rmw[0].arg(1)) == {ip[0][0]} and b.origins(ip[0][1]['args'][0]) == {('arg', 2)},
+                    'the value written is into_ptr(new)')
+            col.add('SWAP-SHAPE', 'swap|returns what the RMW took out', _call_bbs(b, fp[0][1]['args'][0]) == {rmw[0].bb} and fp[0][1]['dest']['local'] == 0,
+                    'the result is from_ptr(<value returned by the atomic swap>): the immediate predecessor in the cell\'s modification order')
+    for fn, rel in (('arc_swap::ArcSwapAny::into_inner', 'from_ptr'), ('<ArcSwapAny as std::ops::Drop>::drop', 'dec')):
+        b = _body(fx, fn)
+        if not col.anchor('SWAP-SHAPE', fn, b is not None):
+            continue
+        gm = [s for s in cx.summ.sites_by_body.get(b.key, ()) if s.cls == 'cell' and s.op == 'get_mut']
+        rl = [(bb, t) for bb, t in b.calls(include_cleanup=False) if U.callee_name(t) == rel and (t['callee'].get('trait') or '').endswith('ref_cnt::RefCnt')]
+        ok = len(gm) == 1 and len(rl) == 1 and _call_bbs(b, rl[0][1]['args'][0]) == {gm[0].bb}
+        col.add('SWAP-SHAPE', '%s|releases the stored value' % fn, ok, '%s(*self.ptr.get_mut()) exactly once' % rel)
+
+
+def rule_guard_fields(fx, col):
+    """C10: what a guard is made of: an owned pointer in a ManuallyDrop and an optional &'static debt"""
+    lib = fx.lib
+    g = lib.adts.get('arc_swap::Guard')
+    if col.anchor('GUARD-FIELDS', 'struct Guard', g is not None):
+        f = [(x['name'], x['ty']) for x in g['variants'][0]['fields']]
+        col.add('GUARD-FIELDS', 'Guard|one field, the strategy\'s protection', len(f) == 1 and 'Protected' in f[0][1] and '&' not in f[0][1], 'fields: %s' % f)
+        col.add('GUARD-FIELDS', 'Guard|no lifetime parameter', not any(x.startswith("'") for x in g.get('generics', [])), 'generics: %s' % g.get('generics'))
+    p = lib.adts.get('arc_swap::strategy::hybrid::HybridProtection')
+    if col.anchor('GUARD-FIELDS', 'struct HybridProtection', p is not None):
+        f = {x['name']: x['ty'] for x in p['variants'][0]['fields']}
+        nolt = not any(x.startswith("'") for x in p.get('generics', []))
+        col.add('GUARD-FIELDS', 'HybridProtection|&\'static Debt', '&' in f.get('debt', '') and 'Debt' in f.get('debt', '') and nolt,
+                'debt: %s in a struct without lifetime parameters, hence &\'static (nodes are never freed: NEVER-FREED)' % f.get('debt'))
+        col.add('GUARD-FIELDS', 'HybridProtection|pointer by value', f.get('ptr', '').endswith('ManuallyDrop<T>'), 'ptr: %s' % f.get('ptr'))
+        col.add('GUARD-FIELDS', 'HybridProtection|nothing else', set(f) == {'debt', 'ptr'}, 'fields: %s' % sorted(f))
+        col.add('GUARD-FIELDS', 'HybridProtection|no lifetime parameter', not any(x.startswith("'") for x in p.get('generics', [])), 'generics: %s' % p.get('generics'))
